@@ -181,9 +181,13 @@ Section Obs.
     feed_rtmp_message O obs_decide obs_apply obs_patpmt x o m = (x', o', outs) -> traced_x o o' outs.
   Proof.
     unfold feed_rtmp_message. destruct (fq_done (x_filter x)).
-    - destruct (on_pop O obs_decide obs_apply (x_core x) o m) as [[s1 o1] evs] eqn:E.
-      intros H. injection H as _ <- <-. apply traced_to_x. exact (on_pop_traced _ _ _ _ _ _ E).
-    - set (f1 := mk_tsfilt _ _ _ _).
+    - destruct (late_track (x_filter x) m) as [f' pp].
+      set (o0 := match pp with Some b => obs_patpmt o b | None => o end).
+      destruct (on_pop O obs_decide obs_apply (x_core x) o0 m) as [[s1 o1] evs] eqn:E.
+      intros H. injection H as _ <- <-. apply (traced_x_app o o0).
+      + destruct pp as [b|]; [exists [CbPatPmt b]; repeat split; constructor; [exact I|constructor]|exists []; repeat split; constructor].
+      + apply traced_to_x. exact (on_pop_traced _ _ _ _ _ _ E).
+    - set (f1 := mk_tsfilt _ _ _ _ _).
       assert (Hd : forall r, drain O obs_decide obs_apply obs_patpmt x o f1 = r -> traced_x o (snd (fst r)) (snd r)).
       { intros r <-. unfold drain. set (pp := pack_pat ++ pack_pmt (fq_vcodec f1) (fq_acodec f1)).
         destruct (pop_all O obs_decide obs_apply (x_core x) (obs_patpmt o pp) (fq_data f1)) as [[s1 o1] evs] eqn:E.
